@@ -380,7 +380,9 @@ WildNestedExcl(M, TS, o, r) ==
   LET goals == TGoalKeys(M, o.t, r)
       withDiff == {g \in goals : HasRel(M, g[1], g[2]) /\ \E x \in SubRw(Rw(M, g[1], g[2])) : x.k = "diff"}
       reads == TReadKeys(M, o.t, r)
-  IN /\ Cardinality(withDiff) >= 2
+  IN \* two exclusions on the path, or one exclusion on a recursive relation (entered again through its own userset)
+     /\ \/ Cardinality(withDiff) >= 2
+        \/ \E g \in withDiff : g \in TSucc(M, g) \/ g \in TClosure(M, TSucc(M, g))
      /\ \E t \in TS : IsWild(t.u) /\ <<t.o.t, t.r>> \in reads
 
 ListUsersClass(M, TS, ev) ==
